@@ -10,7 +10,7 @@ from .core import Result, Violation, HarnessError, EventLog, bump, rng_for, sha_
 PROP = 'C05'
 TIMEOUT = 900
 BATCHES = {
-    'quick': [('F0', 2600), ('FI', 1600), ('M', 260)],
+    'quick': [('F0', 2600), ('FI', 1600), ('M', 600)],
     'thorough': [('F0', 90000), ('FI', 50000), ('M', 7000)],
 }
 CHUNK = {'F0': 40, 'FI': 40, 'M': 6}
@@ -112,7 +112,7 @@ def generate(seed, batch):
             # a second analysis on the same object after its edge flags were re-defined
             scen['redefine_flags'] = ({f: float(rng.choice([0, 1])) for f in rng.sample(
                 ['u1tx', 'u2tx', 'v1tx', 'v2tx', 'w1tx', 'w1rx', 'w2tx', 'w2rx', 'u1ty', 'u2ty', 'v1ty', 'v2ty', 'w1ty', 'w1ry', 'w2ty', 'w2ry'],
-                rng.randint(1, 4))} if rng.random() < 0.35 else None)
+                rng.randint(1, 4))} if rng.random() < 0.6 else None)
         elif kind in ('assembly', 'bay'):
             # matrices of multi-component models (other null-row patterns, penalty connections), solved by analysis.lb
             from . import c20 as _c20
@@ -673,6 +673,18 @@ def execute(scen):
                     obj.lb(tol=0, sparse_solver=sparse, silent=True)
                 except Exception as e:
                     bump(res['exceptions'], 'redefined_' + type(e).__name__)
+                    if 'Arpack' not in type(e).__name__:
+                        # a deterministic refusal (singular factor, shape error): then a fresh object of the new definition
+                        # must refuse as well - otherwise something of the first analysis survived in the long-lived object
+                        try:
+                            fresh.num_eigvalues = k
+                            fresh.lb(tol=0, sparse_solver=sparse, silent=True)
+                        except Exception:
+                            pass
+                        else:
+                            raise Violation('E2-redefinition', {'why': 'after its edge flags were re-defined the analysis raises on the long-lived '
+                                                                       'Panel although it returns on a fresh Panel of the same definition',
+                                                                'exception': repr(e)[:160]})
                 else:
                     check_result(scen, Kd2, Gd2, act2, obj.eigvals, obj.eigvecs, 0, k, sparse, ref2, log, res, tag='(after-redefinition)')
                     bump(res['probes'], 'redefinition_checked')
